@@ -357,6 +357,7 @@ func TestVerifC14(t *testing.T) {
 	r := mc.NewReport("C14")
 	old := debug.SetGCPercent(400)
 	defer debug.SetGCPercent(old)
+	defer debug.SetMemoryLimit(debug.SetMemoryLimit(20 << 30))
 	base := os.Getenv("VERIF_SCRATCH")
 	if base == "" {
 		base = "/dev/shm"
